@@ -11,6 +11,7 @@ using namespace verif;
 struct coll_params
 {
     std::size_t maxns = 32, bs = 288;
+    std::size_t maxns2 = 0; // max_node_size of the object constructed in slot 1 (0: same as slot 0): moves between differently shaped collections
     int         fam = 0;
     bool        tries = false, bad = false;
     std::vector<long> sizes;                   // node sizes requested
@@ -40,7 +41,9 @@ struct coll_policy
     static void init_extra(extra_t&) {}
     static void construct(void* where)
     {
-        ::new (where) object(PP.maxns, PP.bs);
+        // the generic system sets the upstream's current owner to the slot under construction
+        bool second = PP.maxns2 && g_up() && g_up()->cur_owner == 1;
+        ::new (where) object(second ? PP.maxns2 : PP.maxns, PP.bs);
     }
     //=== deliberately invalid calls (C16): release an already free node of the first requested size again ===//
     static int nbad()
@@ -322,8 +325,10 @@ struct coll_policy
         const obs& before = before_all.per[si];
         if (r.is_try && r.kind == 0 && !before.empty && r.size <= before.max_node && r.align <= before.max_align)
             t.fail("M-try", "try-null-with-free-node", "try_allocate_node returned null although its free list held a node");
-        (void)w;
-        (void)s;
+        auto after = observe_for(w, s, r.size);
+        if (t.up_allocs == 0 && after.next_block != before.next_block)
+            t.fail("M-counters", "next-capacity-changed-by-failed-alloc",
+                   fmt("the next block size went from %zu to %zu across a request that failed and obtained no block", before.next_block, after.next_block));
     }
     template <class W>
     static void check_release(W& w, int s, const live_t& l, const obs_all& before_all)
@@ -441,6 +446,7 @@ int main(int argc, char** argv)
     argmap a(argc, argv);
     read_common(a);
     PP.maxns = std::size_t(a.n("maxns", 32));
+    PP.maxns2 = std::size_t(a.n("maxns2", 0));
     PP.bs    = std::size_t(a.n("bs", 288));
     PP.tries = a.n("tries", 0) != 0;
     std::string fam = a.s("fam", "member");
